@@ -1,12 +1,15 @@
 package cluster
 
 import (
+	"bytes"
+	"encoding/json"
 	"fmt"
 	"sync"
 	"time"
 
 	"github.com/bbva/qed/balloon"
 	"github.com/bbva/qed/crypto/hashing"
+	"github.com/bbva/qed/protocol"
 	"github.com/bbva/qed/storage"
 
 	"qedverif/lib"
@@ -320,8 +323,48 @@ func RunC10(c *lib.Ctx) {
 			if c.Only != "" && c.Only != cs.ID {
 				continue
 			}
+			// answers obtained BEFORE this window's insertion must still verify AFTER it (an answer handed to a
+			// client must not change when the log grows: it would mix state from before and after an insertion)
+			type held struct {
+				mp   *balloon.MembershipProof
+				ip   *balloon.IncrementalProof
+				d    []byte
+				json []byte
+				what string
+			}
+			var helds []held
+			for k := 0; k < 6 && len(snaps) > 1; k++ {
+				e := r.Intn(len(snaps))
+				q := e + r.Intn(len(snaps)-e)
+				d := EventDigest([]byte(events[e]))
+				if mp, err := nd.N.QueryDigestMembershipConsistency(hashing.Digest(d), uint64(q)); err == nil {
+					js, _ := json.Marshal(protocol.ToMembershipResult(nil, mp))
+					helds = append(helds, held{mp: mp, d: d, json: js, what: fmt.Sprintf("membership(event@%d, version %d)", e, q)})
+				}
+				if ip, err := nd.N.QueryConsistency(uint64(e), uint64(q)); err == nil {
+					js, _ := json.Marshal(protocol.ToIncrementalResponse(ip))
+					helds = append(helds, held{ip: ip, json: js, what: fmt.Sprintf("consistency(%d,%d)", e, q)})
+				}
+			}
 			if !runWindow(c, nd, cs, r, &events, &snaps, c.Q(12, 24)) {
 				return
+			}
+			for _, h := range helds {
+				var ok bool
+				var js []byte
+				if h.mp != nil {
+					snap := &balloon.Snapshot{HistoryDigest: snaps[h.mp.QueryVersion].HistoryDigest, HyperDigest: snaps[h.mp.CurrentVersion].HyperDigest, Version: h.mp.QueryVersion}
+					lib.Recover(func() { ok = h.mp.DigestVerify(hashing.Digest(h.d), snap) })
+					js, _ = json.Marshal(protocol.ToMembershipResult(nil, h.mp))
+				} else {
+					lib.Recover(func() { ok = h.ip.Verify(snaps[h.ip.Start], snaps[h.ip.End]) })
+					js, _ = json.Marshal(protocol.ToIncrementalResponse(h.ip))
+				}
+				c.Count("held_answers_rechecked_after_insertion", 1)
+				if !ok || !bytes.Equal(js, h.json) {
+					c.Violation("C10:answer-changed-after-later-insertion", fmt.Sprintf("%s: the answer to %s, obtained before an insertion, no longer verifies / serialises differently after it (verifies=%v)", cs.ID, h.what, ok), cs)
+					break
+				}
 			}
 			outs := map[string]bool{}
 			for _, a := range cs.Answers {
